@@ -85,7 +85,7 @@ def model_domain(runner, cfg, tier):
 BEH_RE = re.compile(r'^<<\s*"BEHAVIOUR",\s*<<([^>]*)>>,\s*"([^"]*)"\s*>>$')
 
 
-def run_model(runner, cfg, tier, name="mcstack"):
+def run_model(runner, cfg, tier, name="mcstack", depth=4):
     frames, cookies = model_domain(runner, cfg, tier)
     workdir = tv.prepare_dir(name)
     with open(os.path.join(workdir, "frames.ndjson"), "w") as fh:
@@ -97,9 +97,8 @@ def run_model(runner, cfg, tier, name="mcstack"):
     with open(os.path.join(workdir, "mccfg.ndjson"), "w") as fh:
         fh.write(json.dumps(cfg.record()) + "\n")
     env = {"FRAMES": os.path.join(workdir, "frames.ndjson"), "COOKIES": os.path.join(workdir, "cookies.ndjson"),
-           "MCCFG": os.path.join(workdir, "mccfg.ndjson")}
-    rc, out = tv.run_tlc(workdir, "MCStack.tla", "MCStack.cfg", env, workers=8, xmx="6g", timeout=1500,
-                         extra=["-coverage", "1"])
+           "MCCFG": os.path.join(workdir, "mccfg.ndjson"), "MCDEPTH": str(depth), "JAVA_TOOL_OPTIONS": "-Xss256m"}
+    rc, out = tv.run_tlc(workdir, "MCStack.tla", "MCStack.cfg", env, workers=6, xmx="6g", timeout=1500)
     with open(os.path.join(workdir, "mcstack.log"), "w") as fh:
         fh.write(out)
     m = re.search(r"(\d+) states generated, (\d+) distinct states found", out)
